@@ -286,7 +286,7 @@ func runBin(l *mc.Local, im *bimg, bin string, extras bool) (suffix, detail stri
 		l.Count("black_rows", 1)
 		l.Distinct("outcomes", bin+":"+d)
 	}
-	for _, y := range []int{-1, im.h} {
+	for _, y := range farRows(im.w, im.h) {
 		if _, er := bb.GetBlackRow(y, nil); er == nil {
 			return "row/out-of-range", fmt.Sprintf("GetBlackRow(%d) on height %d returned no error", y, im.h)
 		}
